@@ -503,7 +503,7 @@ From Mila Require Model.BinArchive Model.BinFormat Model.TextMap Model.TextForma
    parameters stored in the archive value) + byte-level write.
    UNFOLDING LEMMAS (C12_e2e_helpers_unfold, C12_e2e_same_codec; proofs by reflexivity): they display the definitions of
    Model/FsTyped.v so that the statements below can be read without it; they prove nothing about the code. *)
-Theorem C12_e2e_helpers_unfold : forall mc md S p loc,
+Theorem C12_e2e_helpers_unfold : forall kf mc md S p loc,
   read_archive md S p loc = fbind (read_file md S p loc) (fun b => lift_parse (BinFormat.from_bytes (c_endian (conf S)) b)) /\
   read_text_archive md S p loc = fbind (read_file md S p loc) (fun b => lift_parse (parse_text (c_text (conf S)) (c_endian (conf S)) b)) /\
   read_arc md S p loc = fbind (read_file md S p loc) (fun b => lift_parse (Arc.arc_from_bytes md b)) /\
@@ -512,11 +512,11 @@ Theorem C12_e2e_helpers_unfold : forall mc md S p loc,
   read_bch_textures md S p loc = fbind (read_file md S p loc) (fun b => lift_parse (as_map (Bch.read_bch md b))) /\
   read_ctpk_textures md S p loc = fbind (read_file md S p loc) (fun b => lift_parse (as_map (Ctpk.read_ctpk md b))) /\
   read_cgfx_textures md S p loc = fbind (read_file md S p loc) (fun b => lift_parse (as_map (Cgfx.read_cgfx md b))) /\
-  (forall a, write_archive mc S p a loc =
-     match BinFormat.serialize mc a with
+  (forall a, write_archive kf mc S p a loc =
+     match BinFormat.serialize_k kf mc a with
      | Ok f => write_file mc S p f loc | Err x => (S, FErr (EParse x)) | Panic k => (S, FPanic k) end) /\
-  (forall a, write_text_archive mc S p a loc =
-     match TextFormat.serialize mc (ta_fmt a) (ta_endian a) (ta_map a) with
+  (forall a, write_text_archive kf mc S p a loc =
+     match TextFormat.serialize kf mc (ta_fmt a) (ta_endian a) (ta_map a) with
      | Ok f => write_file mc S p f loc | Err x => (S, FErr (EParse x)) | Panic k => (S, FPanic k) end).
 Proof. exact typed_helpers_unfold. Qed.
 (* ... and the byte-level operations are the ones of the codec theorems above *)
@@ -560,22 +560,22 @@ Theorem C12_e2e_same_archive_is_C01 : forall a a' : BinArchive.archive,
    (forall x, BinArchive.am_get x (BinArchive.a_labels a') = BinArchive.am_get x (BinArchive.a_labels a)) /\
    (forall s cs cell, In (s, cs) (BinArchive.a_cstrs a) -> In cell cs -> BinArchive.read_c_string a' cell = Ok (Some s))).
 Proof. intros a a'. split; exact (fun H => H). Qed.
-Theorem C12_e2e_archive_round_trip : forall mc md S p loc a S',
+Theorem C12_e2e_archive_round_trip : forall kf mc md S p loc a S',
   BinSerializeConforms.wf_archive a -> BinSerializeConforms.ser_bound a < 2 ^ 24 -> BinArchive.a_endian a = c_endian (conf S) ->
-  write_archive mc S p a loc = (S', FOk tt) ->
+  write_archive kf mc S p a loc = (S', FOk tt) ->
   exists f a',
-    BinFormat.serialize mc a = Ok f /\ write_file mc S p f loc = (S', FOk tt) /\
+    BinFormat.serialize_k kf mc a = Ok f /\ write_file mc S p f loc = (S', FOk tt) /\
     read_file md S' p loc = FOk f /\
     read_archive md S' p loc = FOk a' /\ same_archive a a'.
 Proof. exact e2e_archive_round_trip. Qed.
 (* per game: FE9 / FE10 big-endian archives, FE13 - FE15 little-endian archives *)
-Theorem C12_e2e_archive_round_trip_by_game : forall mc md ls l g S p loc a S',
+Theorem C12_e2e_archive_round_trip_by_game : forall kf mc md ls l g S p loc a S',
   fs_new ls l g = FOk S ->
   BinSerializeConforms.wf_archive a -> BinSerializeConforms.ser_bound a < 2 ^ 24 ->
   match g with FE9 | FE10 => BinArchive.a_endian a = BE | FE13 | FE14 | FE15 => BinArchive.a_endian a = LE | FE11 | FE12 => False end ->
-  write_archive mc S p a loc = (S', FOk tt) ->
+  write_archive kf mc S p a loc = (S', FOk tt) ->
   exists f a',
-    BinFormat.serialize mc a = Ok f /\ write_file mc S p f loc = (S', FOk tt) /\
+    BinFormat.serialize_k kf mc a = Ok f /\ write_file mc S p f loc = (S', FOk tt) /\
     read_file md S' p loc = FOk f /\
     read_archive md S' p loc = FOk a' /\ same_archive a a'.
 Proof. exact e2e_archive_round_trip_by_game. Qed.
@@ -591,20 +591,20 @@ Theorem C12_e2e_read_archive_conforming : forall mc md S p loc f c S',
 Proof. exact e2e_read_archive_conforming. Qed.
 
 (* (b) write_text_archive -> read_text_archive: title (the legacy format stores none), keys in order, messages, dirty = false *)
-Theorem C12_e2e_text_round_trip : forall mc md S p loc ta S',
+Theorem C12_e2e_text_round_trip : forall kf mc md S p loc ta S',
   TextFormatRoundTrip.wf_text (ta_fmt ta) (ta_map ta) -> TextFormatRoundTrip.wf_text_bytes (ta_fmt ta) (ta_endian ta) (ta_map ta) ->
   TextFormatRoundTrip.file_bound (TextFormatWrite.text_image (ta_fmt ta) (ta_endian ta) (ta_map ta)) < 2 ^ 24 ->
   ta_fmt ta = tformat_of (c_text (conf S)) -> ta_endian ta = c_endian (conf S) ->
-  write_text_archive mc S p ta loc = (S', FOk tt) ->
+  write_text_archive kf mc S p ta loc = (S', FOk tt) ->
   exists f,
-    TextFormat.serialize mc (ta_fmt ta) (ta_endian ta) (ta_map ta) = Ok f /\ write_file mc S p f loc = (S', FOk tt) /\
+    TextFormat.serialize kf mc (ta_fmt ta) (ta_endian ta) (ta_map ta) = Ok f /\ write_file mc S p f loc = (S', FOk tt) /\
     read_file md S' p loc = FOk f /\
     read_text_archive md S' p loc =
       FOk (mkTA (ta_fmt ta) (ta_endian ta)
              {| TextMap.t_title := match ta_fmt ta with TextFormat.Unicode => TextMap.t_title (ta_map ta) | TextFormat.ShiftJIS => [] end;
                 TextMap.t_entries := TextMap.t_entries (ta_map ta); TextMap.t_dirty := false |}).
 Proof. exact e2e_text_round_trip. Qed.
-Theorem C12_e2e_text_round_trip_by_game : forall mc md ls l g S p loc ta S',
+Theorem C12_e2e_text_round_trip_by_game : forall kf mc md ls l g S p loc ta S',
   fs_new ls l g = FOk S ->
   TextFormatRoundTrip.wf_text (ta_fmt ta) (ta_map ta) -> TextFormatRoundTrip.wf_text_bytes (ta_fmt ta) (ta_endian ta) (ta_map ta) ->
   TextFormatRoundTrip.file_bound (TextFormatWrite.text_image (ta_fmt ta) (ta_endian ta) (ta_map ta)) < 2 ^ 24 ->
@@ -613,9 +613,9 @@ Theorem C12_e2e_text_round_trip_by_game : forall mc md ls l g S p loc ta S',
   | FE13 | FE14 | FE15 => ta_fmt ta = TextFormat.Unicode /\ ta_endian ta = LE
   | FE11 | FE12 => False
   end ->
-  write_text_archive mc S p ta loc = (S', FOk tt) ->
+  write_text_archive kf mc S p ta loc = (S', FOk tt) ->
   exists f,
-    TextFormat.serialize mc (ta_fmt ta) (ta_endian ta) (ta_map ta) = Ok f /\ write_file mc S p f loc = (S', FOk tt) /\
+    TextFormat.serialize kf mc (ta_fmt ta) (ta_endian ta) (ta_map ta) = Ok f /\ write_file mc S p f loc = (S', FOk tt) /\
     read_file md S' p loc = FOk f /\
     read_text_archive md S' p loc =
       FOk (mkTA (ta_fmt ta) (ta_endian ta)
@@ -626,13 +626,13 @@ Proof. exact e2e_text_round_trip_by_game. Qed.
 (* everything together, per game: archive value -> image f (C01 / C06) -> stored file c (LZ10 for ".cms" / ".cmp" under FE9 / FE10,
    0x13-wrapped LZ11 for ".lz" under FE13 - FE15, f itself otherwise) in the top layer at the addressed location -> decompressed by the
    game's decompressor back to f -> parsed with the game's endianness (and text format) to the value the typed reader returns *)
-Theorem C12_e2e_archive_by_game_chain : forall mc md ls l g S p loc a S',
+Theorem C12_e2e_archive_by_game_chain : forall kf mc md ls l g S p loc a S',
   fs_new ls l g = FOk S ->
   BinSerializeConforms.wf_archive a -> BinSerializeConforms.ser_bound a < 2 ^ 24 ->
   match g with FE9 | FE10 => BinArchive.a_endian a = BE | FE13 | FE14 | FE15 => BinArchive.a_endian a = LE | FE11 | FE12 => False end ->
-  write_archive mc S p a loc = (S', FOk tt) ->
+  write_archive kf mc S p a loc = (S', FOk tt) ->
   exists f a' s pp c,
-    BinFormat.serialize mc a = Ok f /\
+    BinFormat.serialize_k kf mc a = Ok f /\
     fs_addr S p loc = FOk (s, (pp, false)) /\ l_get (last (layers S') []) pp = Some (File c) /\
     match g with
     | FE9 | FE10 => if orb (ends_with sfx_cms p) (ends_with sfx_cmp p)
@@ -642,7 +642,7 @@ Theorem C12_e2e_archive_by_game_chain : forall mc md ls l g S p loc a S',
     BinFormat.from_bytes (match g with FE9 | FE10 => BE | _ => LE end) f = Ok a' /\
     read_archive md S' p loc = FOk a' /\ same_archive a a'.
 Proof. exact e2e_archive_by_game_chain. Qed.
-Theorem C12_e2e_text_by_game_chain : forall mc md ls l g S p loc ta S',
+Theorem C12_e2e_text_by_game_chain : forall kf mc md ls l g S p loc ta S',
   fs_new ls l g = FOk S ->
   TextFormatRoundTrip.wf_text (ta_fmt ta) (ta_map ta) -> TextFormatRoundTrip.wf_text_bytes (ta_fmt ta) (ta_endian ta) (ta_map ta) ->
   TextFormatRoundTrip.file_bound (TextFormatWrite.text_image (ta_fmt ta) (ta_endian ta) (ta_map ta)) < 2 ^ 24 ->
@@ -651,9 +651,9 @@ Theorem C12_e2e_text_by_game_chain : forall mc md ls l g S p loc ta S',
   | FE13 | FE14 | FE15 => ta_fmt ta = TextFormat.Unicode /\ ta_endian ta = LE
   | FE11 | FE12 => False
   end ->
-  write_text_archive mc S p ta loc = (S', FOk tt) ->
+  write_text_archive kf mc S p ta loc = (S', FOk tt) ->
   exists f s pp c,
-    TextFormat.serialize mc (ta_fmt ta) (ta_endian ta) (ta_map ta) = Ok f /\
+    TextFormat.serialize kf mc (ta_fmt ta) (ta_endian ta) (ta_map ta) = Ok f /\
     fs_addr S p loc = FOk (s, (pp, false)) /\ l_get (last (layers S') []) pp = Some (File c) /\
     match g with
     | FE9 | FE10 => if orb (ends_with sfx_cms p) (ends_with sfx_cmp p)
@@ -723,12 +723,12 @@ Theorem C12_e2e_tex_map_lookup : forall l k, tex_get k (tex_map l) = find (fun t
 Proof. exact tex_map_lookup. Qed.
 
 (* (d) the typed writers touch the top layer only *)
-Theorem C12_e2e_write_archive_lower_untouched : forall mc S p a loc S' r,
-  write_archive mc S p a loc = (S', r) ->
+Theorem C12_e2e_write_archive_lower_untouched : forall kf mc S p a loc S' r,
+  write_archive kf mc S p a loc = (S', r) ->
   conf S' = conf S /\ lng S' = lng S /\ length (layers S') = length (layers S) /\ removelast (layers S') = removelast (layers S).
 Proof. exact write_archive_lower_untouched. Qed.
-Theorem C12_e2e_write_text_archive_lower_untouched : forall mc S p a loc S' r,
-  write_text_archive mc S p a loc = (S', r) ->
+Theorem C12_e2e_write_text_archive_lower_untouched : forall kf mc S p a loc S' r,
+  write_text_archive kf mc S p a loc = (S', r) ->
   conf S' = conf S /\ lng S' = lng S /\ length (layers S') = length (layers S) /\ removelast (layers S') = removelast (layers S).
 Proof. exact write_text_archive_lower_untouched. Qed.
 (* success: the top layer holds at the addressed location a valid LZ10 / wrapped LZ11 stream of the IMAGE (compressed name) or
@@ -743,43 +743,43 @@ Theorem C12_e2e_top_layer_effect_is : forall S S' pp c,
    (forall q, q <> pp -> ~ (In q (proper_prefixes pp) /\ l_get top q = None) -> l_get top' q = l_get top q) /\
    l_get top pp <> Some Dir /\ (forall q, In q (proper_prefixes pp) -> is_file_at top q = false)).
 Proof. intros S S' pp c. split; exact (fun H => H). Qed.
-Theorem C12_e2e_write_archive_top_only : forall mc S p a loc S',
+Theorem C12_e2e_write_archive_top_only : forall kf mc S p a loc S',
   BinSerializeConforms.wf_archive a -> BinSerializeConforms.ser_bound a < 2 ^ 24 ->
-  write_archive mc S p a loc = (S', FOk tt) ->
-  exists f s pp c, BinFormat.serialize mc a = Ok f /\ fs_addr S p loc = FOk (s, (pp, false)) /\ top_layer_effect S S' pp c /\
+  write_archive kf mc S p a loc = (S', FOk tt) ->
+  exists f s pp c, BinFormat.serialize_k kf mc a = Ok f /\ fs_addr S p loc = FOk (s, (pp, false)) /\ top_layer_effect S S' pp c /\
     if is_compressed (c_comp (conf S)) p then valid_stream (c_comp (conf S)) f c else c = f.
 Proof. exact write_archive_top_only. Qed.
-Theorem C12_e2e_write_text_archive_top_only : forall mc S p ta loc S',
+Theorem C12_e2e_write_text_archive_top_only : forall kf mc S p ta loc S',
   TextFormatRoundTrip.wf_text (ta_fmt ta) (ta_map ta) -> TextFormatRoundTrip.wf_text_bytes (ta_fmt ta) (ta_endian ta) (ta_map ta) ->
   TextFormatRoundTrip.file_bound (TextFormatWrite.text_image (ta_fmt ta) (ta_endian ta) (ta_map ta)) < 2 ^ 24 ->
-  write_text_archive mc S p ta loc = (S', FOk tt) ->
-  exists f s pp c, TextFormat.serialize mc (ta_fmt ta) (ta_endian ta) (ta_map ta) = Ok f /\
+  write_text_archive kf mc S p ta loc = (S', FOk tt) ->
+  exists f s pp c, TextFormat.serialize kf mc (ta_fmt ta) (ta_endian ta) (ta_map ta) = Ok f /\
     fs_addr S p loc = FOk (s, (pp, false)) /\ top_layer_effect S S' pp c /\
     if is_compressed (c_comp (conf S)) p then valid_stream (c_comp (conf S)) f c else c = f.
 Proof. exact write_text_archive_top_only. Qed.
 (* in the domain the serializers succeed, so a typed write IS the byte-level write of the image (its failures are the ones of
    C12_write_fail / C12_write_fail_unchanged); a failing serializer changes nothing *)
-Theorem C12_e2e_write_archive_is_write : forall mc S p a loc,
+Theorem C12_e2e_write_archive_is_write : forall kf mc S p a loc,
   BinSerializeConforms.wf_archive a -> BinSerializeConforms.ser_bound a < 2 ^ 24 ->
-  exists f, BinFormat.serialize mc a = Ok f /\ wfb f /\ lenN f < 2 ^ 24 /\ write_archive mc S p a loc = write_file mc S p f loc.
+  exists f, BinFormat.serialize_k kf mc a = Ok f /\ wfb f /\ lenN f < 2 ^ 24 /\ write_archive kf mc S p a loc = write_file mc S p f loc.
 Proof. exact write_archive_is_write. Qed.
-Theorem C12_e2e_write_text_archive_is_write : forall mc S p ta loc,
+Theorem C12_e2e_write_text_archive_is_write : forall kf mc S p ta loc,
   TextFormatRoundTrip.wf_text (ta_fmt ta) (ta_map ta) -> TextFormatRoundTrip.wf_text_bytes (ta_fmt ta) (ta_endian ta) (ta_map ta) ->
   TextFormatRoundTrip.file_bound (TextFormatWrite.text_image (ta_fmt ta) (ta_endian ta) (ta_map ta)) < 2 ^ 24 ->
-  exists f, TextFormat.serialize mc (ta_fmt ta) (ta_endian ta) (ta_map ta) = Ok f /\ wfb f /\ lenN f < 2 ^ 24 /\
-    write_text_archive mc S p ta loc = write_file mc S p f loc.
+  exists f, TextFormat.serialize kf mc (ta_fmt ta) (ta_endian ta) (ta_map ta) = Ok f /\ wfb f /\ lenN f < 2 ^ 24 /\
+    write_text_archive kf mc S p ta loc = write_file mc S p f loc.
 Proof. exact write_text_archive_is_write. Qed.
-Theorem C12_e2e_write_archive_serialize_fails : forall mc S p a loc S' r,
-  write_archive mc S p a loc = (S', r) -> (forall f, BinFormat.serialize mc a <> Ok f) -> S' = S /\ r <> FOk tt.
+Theorem C12_e2e_write_archive_serialize_fails : forall kf mc S p a loc S' r,
+  write_archive kf mc S p a loc = (S', r) -> (forall f, BinFormat.serialize_k kf mc a <> Ok f) -> S' = S /\ r <> FOk tt.
 Proof. exact write_archive_serialize_fails. Qed.
 
 (* ---- histories of typed and byte-level calls (typed_run = iteration of typed_step, the function the correspondence runs) ---- *)
 (* along ANY history: configuration, language, number of layers and all layers but the last never change; layers stay directory trees *)
-Theorem C12_e2e_typed_run_lower_untouched : forall mc md os S,
-  let S' := typed_run mc md S os in
+Theorem C12_e2e_typed_run_lower_untouched : forall kf mc md os S,
+  let S' := typed_run kf mc md S os in
   conf S' = conf S /\ lng S' = lng S /\ length (layers S') = length (layers S) /\ removelast (layers S') = removelast (layers S).
 Proof. exact typed_run_lower_untouched. Qed.
-Theorem C12_e2e_typed_run_wf : forall mc md os S, wf_fs S -> wf_fs (typed_run mc md S os).
+Theorem C12_e2e_typed_run_wf : forall kf mc md os S, wf_fs S -> wf_fs (typed_run kf mc md S os).
 Proof. exact typed_run_wf. Qed.
 (* frame, for EVERY codec: a write - whatever it returns - that is not addressed to the location p addresses leaves read p unchanged *)
 Theorem C12_e2e_write_frame_read : forall compress decompress S q b locq S' r p loc s a,
@@ -798,9 +798,9 @@ Theorem C12_e2e_writes_elsewhere_is : forall S pp o,
   end.
 Proof. intros S pp o. split; exact (fun H => H). Qed.
 (* along a history none of whose calls writes to the location p addresses, every reader returns what it returned before *)
-Theorem C12_e2e_typed_run_keeps_typed_reads : forall mc md md' os S p loc s a,
+Theorem C12_e2e_typed_run_keeps_typed_reads : forall kf mc md md' os S p loc s a,
   fs_addr S p loc = FOk (s, a) -> Forall (writes_elsewhere S (fst a)) os ->
-  let S' := typed_run mc md S os in
+  let S' := typed_run kf mc md S os in
   read_file md' S' p loc = read_file md' S p loc /\
   read_archive md' S' p loc = read_archive md' S p loc /\
   read_text_archive md' S' p loc = read_text_archive md' S p loc /\
@@ -810,17 +810,17 @@ Theorem C12_e2e_typed_run_keeps_typed_reads : forall mc md md' os S p loc s a,
 Proof. exact typed_run_keeps_typed_reads. Qed.
 (* read-after-write THROUGH a history: write_archive, then any calls that do not write to the same location (writes elsewhere, typed or
    not, succeeding or failing, and reads), then read_archive: the archive of C01's round trip *)
-Theorem C12_e2e_archive_round_trip_history : forall mc md S p loc a S1 os,
+Theorem C12_e2e_archive_round_trip_history : forall kf mc md S p loc a S1 os,
   BinSerializeConforms.wf_archive a -> BinSerializeConforms.ser_bound a < 2 ^ 24 -> BinArchive.a_endian a = c_endian (conf S) ->
-  write_archive mc S p a loc = (S1, FOk tt) ->
+  write_archive kf mc S p a loc = (S1, FOk tt) ->
   (forall s pp tr, fs_addr S p loc = FOk (s, (pp, tr)) -> Forall (writes_elsewhere S pp) os) ->
-  exists a', read_archive md (typed_run mc md S1 os) p loc = FOk a' /\ same_archive a a'.
+  exists a', read_archive md (typed_run kf mc md S1 os) p loc = FOk a' /\ same_archive a a'.
 Proof. exact e2e_archive_round_trip_history. Qed.
 
 (* ---- localisation (file-system half of C14) for the typed helpers ---- *)
 (* a localized typed call addresses what the unlocalized call on [localize p] addresses; the codec is chosen by the caller's name (the
    premise holds for every path dir/name without trailing '/': C14_fs_same_codec) *)
-Theorem C12_e2e_typed_localized_consistent : forall mc md S p p',
+Theorem C12_e2e_typed_localized_consistent : forall kf mc md S p p',
   localize (c_loc (conf S)) (lng S) p = LOk p' ->
   is_compressed (c_comp (conf S)) p = is_compressed (c_comp (conf S)) p' ->
   read_file md S p true = read_file md S p' false /\
@@ -830,12 +830,12 @@ Theorem C12_e2e_typed_localized_consistent : forall mc md S p p',
   read_fe9_arc md S p true = read_fe9_arc md S p' false /\
   (forall k, read_textures md k S p true = read_textures md k S p' false) /\
   (forall b, write_file mc S p b true = write_file mc S p' b false) /\
-  (forall a, write_archive mc S p a true = write_archive mc S p' a false) /\
-  (forall a, write_text_archive mc S p a true = write_text_archive mc S p' a false).
+  (forall a, write_archive kf mc S p a true = write_archive kf mc S p' a false) /\
+  (forall a, write_text_archive kf mc S p a true = write_text_archive kf mc S p' a false).
 Proof. exact typed_localized_consistent. Qed.
 (* a localisation error is returned by every typed reader, and by a typed writer unless its serializer fails first (the code serializes
    before it localizes); nothing changes *)
-Theorem C12_e2e_typed_localisation_error : forall mc md S p e,
+Theorem C12_e2e_typed_localisation_error : forall kf mc md S p e,
   localize (c_loc (conf S)) (lng S) p = LErr e ->
   read_file md S p true = FErr (ELocalization e) /\
   read_archive md S p true = FErr (ELocalization e) /\
@@ -844,11 +844,11 @@ Theorem C12_e2e_typed_localisation_error : forall mc md S p e,
   read_fe9_arc md S p true = FErr (ELocalization e) /\
   (forall k, read_textures md k S p true = FErr (ELocalization e)) /\
   (forall b, write_file mc S p b true = (S, FErr (ELocalization e))) /\
-  (forall a f, BinFormat.serialize mc a = Ok f -> write_archive mc S p a true = (S, FErr (ELocalization e))) /\
-  (forall a f, TextFormat.serialize mc (ta_fmt a) (ta_endian a) (ta_map a) = Ok f ->
-     write_text_archive mc S p a true = (S, FErr (ELocalization e))) /\
-  (forall a S' r, write_archive mc S p a true = (S', r) -> S' = S) /\
-  (forall a S' r, write_text_archive mc S p a true = (S', r) -> S' = S).
+  (forall a f, BinFormat.serialize_k kf mc a = Ok f -> write_archive kf mc S p a true = (S, FErr (ELocalization e))) /\
+  (forall a f, TextFormat.serialize kf mc (ta_fmt a) (ta_endian a) (ta_map a) = Ok f ->
+     write_text_archive kf mc S p a true = (S, FErr (ELocalization e))) /\
+  (forall a S' r, write_archive kf mc S p a true = (S', r) -> S' = S) /\
+  (forall a S' r, write_text_archive kf mc S p a true = (S', r) -> S' = S).
 Proof. exact typed_localisation_error. Qed.
 
 (* ---- non-vacuity of the end-to-end statements (all by computation on the instantiated model) ---- *)
@@ -858,7 +858,7 @@ Example C12_e2e_example_archive_hyp :
   BinArchive.a_endian BinSerializeConforms.ex_archive = BE.
 Proof. exact e2e_example_archive_hyp. Qed.
 Example C12_e2e_example_archive :
-  let '(S', r) := write_archive Checked ex_fe10 ex_cmp BinSerializeConforms.ex_archive false in
+  let '(S', r) := write_archive BinFormat.key_bytes Checked ex_fe10 ex_cmp BinSerializeConforms.ex_archive false in
   r = FOk tt /\
   l_get (last (layers S') []) [ex_cmp] =
     Some (File [16; 87; 0; 0; 10; 0; 0; 0; 87; 0; 3; 18; 0; 7; 3; 181; 0; 11; 2; 0; 15; 208; 2; 52; 0; 35; 14; 16; 27; 10; 13; 14; 99; 115;
@@ -871,7 +871,7 @@ Proof. exact e2e_example_archive. Qed.
 (* the endianness hypothesis is necessary: a LITTLE-endian archive is written to the FE10 file system without complaint and
    read_archive (big-endian for FE10) rejects the file *)
 Example C12_e2e_archive_wrong_endian :
-  let '(S', r) := write_archive Checked ex_fe10 ex_cmp ex_archive_le false in
+  let '(S', r) := write_archive BinFormat.key_bytes Checked ex_fe10 ex_cmp ex_archive_le false in
   r = FOk tt /\ read_archive Checked S' ex_cmp false = FErr (EParse ETooSmall).
 Proof. exact e2e_archive_wrong_endian. Qed.
 Example C12_e2e_example_text_hyp :
@@ -883,7 +883,7 @@ Example C12_e2e_example_text_hyp :
 Proof. exact e2e_example_text_hyp. Qed.
 (* FE14, two layers, French, LOCALIZED write of "m/t.bin.lz": stored at m/@F/t.bin.lz in the top layer as a 0x13-wrapped stream *)
 Example C12_e2e_example_text :
-  let '(S', r) := write_text_archive Checked ex_fe14 ex_lz ex_text true in
+  let '(S', r) := write_text_archive BinFormat.key_bytes Checked ex_fe14 ex_lz ex_text true in
   r = FOk tt /\ nth_error (layers S') 0 = Some [] /\
   (exists c, l_get (last (layers S') []) [[109]; [64; 70]; [116; 46; 98; 105; 110; 46; 108; 122]] = Some (File (0x13 :: c))) /\
   read_text_archive Wrapping S' ex_lz true =
@@ -911,8 +911,8 @@ Example C12_e2e_example_history_hyp :
   forall s pp tr, fs_addr ex_fe10 ex_cmp false = FOk (s, (pp, tr)) -> Forall (writes_elsewhere ex_fe10 pp) ex_history.
 Proof. exact e2e_example_history_hyp. Qed.
 Example C12_e2e_example_history :
-  let '(S1, r) := write_archive Checked ex_fe10 ex_cmp BinSerializeConforms.ex_archive false in
+  let '(S1, r) := write_archive BinFormat.key_bytes Checked ex_fe10 ex_cmp BinSerializeConforms.ex_archive false in
   r = FOk tt /\
-  exists a', read_archive Wrapping (typed_run Checked Wrapping S1 ex_history) ex_cmp false = FOk a' /\
+  exists a', read_archive Wrapping (typed_run BinFormat.key_bytes Checked Wrapping S1 ex_history) ex_cmp false = FOk a' /\
              same_archive BinSerializeConforms.ex_archive a'.
 Proof. exact e2e_example_history. Qed.
